@@ -441,17 +441,40 @@ CLAIMED = {
              "byte values, CharacterSet::operator[] and the SBuf search primitives are taken as specified.",
         technique="loop-shape recognition with lock-step cursor checks + ordering decision tables (path-sensitive for disjunctions) + structural argument-role patterns",
         design="5/C50 (revised in 0.5)"),
+    "C17": dict(
+        text="Completeness gates of the ufs clean swap.state path on all CFG paths: the clean-log walk writes every entry canLog() accepts and canLog refuses only for the six "
+             "confirmed reasons (no disk file, not swapped out, unsized, release-requested, private, special); the record image is fully set and checksummed before it is "
+             "buffered, the buffer advances and resets only after a successful write; the new log carries its header and is installed (renamed over swap.state) only after "
+             "an error-free final flush; replay drops a record only for the confirmed reasons (end of log, insane, not ADD, bad file number, private, file number in use, "
+             "newer indexed entry) and the record's fields reach addDiskRestore/hashInsert positionally unchanged. Not decided: rock cache_dirs (Rock::Rebuild "
+             "conservatively drops overwritten entries), that the walker visits every entry, sane() value ranges, the dirty-log writer, the directory-scan rebuild, "
+             "file-system failures, byte identity of object files, and the restart history itself.",
+        technique="RESPONSE + reason tables (path-sensitive disjunction) + ORDER + positional sibling agreement over the clang CFG",
+        design="5/C17 (revised in 0.5)"),
+    "C18": dict(
+        text="Structural preconditions of sharing one fetch, on all CFG paths: a cachable GET/HEAD miss that may initiate collapsing is always offered via allowCollapsing "
+             "before its fetch starts, with the requires-collapsing flag set before the key goes public; a request allowed to collapse keeps the found entry and reaches no "
+             "forgetHit(); a revalidation slave never calls FwdState::Start; the refusal reasons of startCollapsingOn/onCollapsingPath are exact; a collapsed reader's "
+             "synchronisation ends only as synced, aborted, or still waiting for a live writer on an entry not marked for deletion; writer end, abandonment and IPC queue "
+             "messages always trigger Broadcast, Notify and syncCollapsed. The count 'at most one origin request' over schedules is NOT decided, nor are writer "
+             "collisions, exception handlers, IPC delivery, or byte identity/truncation (C01/C10).",
+        technique="reason tables with unit propagation over short-circuit conditions + RESPONSE/ORDER + path-sensitive outcome table",
+        design="5/C18 (revised in 0.5)"),
+    "C19": dict(
+        text="Program-order gates of sharing entries through shared memory and rock anchors, on all CFG paths and with whole-program caller sets: the shared-memory writer "
+             "is reached only for non-aborted entries and publishes (closeForWriting, in completeWriting only) only a STORE_OK entry after copying everything received; "
+             "readers are admitted before completion only for known-size entries and after the anchor basics are set; a slice's size grows only by, and after, a "
+             "successful copy into its page; copyFromShm takes the eof snapshot before the size snapshot, uses only the snapshot for lengths and advances only over a "
+             "slice seen stable; a failed anchored load throws; rock anchoring derives STORE_OK/SWAPOUT_DONE solely from anchor.complete() under a read lock. "
+             "Interleavings and memory ordering are NOT decided (locks: C53-C55; reader completion: C10 M1; rock publish: C16), nor cross-worker invalidation, "
+             "IpcIoFile or byte identity.",
+        technique="ORDER / dominance / case exclusion / whole-program who-calls on publish-after-copy and snapshot discipline",
+        design="5/C19 (revised in 0.5)"),
 }
 
 
 
 
+
 NOT_APPLICABLE = {
-    "C17": "Persistence over store histories (clean shutdown, restart, hit with identical bytes): the mechanism is 'the index writer records every completed entry and the "
-           "rebuild reads it back'; there is no guard whose absence is visible in code shape, the quantifier ranges over run-time store contents and eviction decisions, and "
-           "any static rule would be a frozen description of today's writer. The structural neighbours (rebuild validation, publish-after-write) are claimed under C16/C57.",
-    "C18": "'At most one origin request among concurrent collapsed clients' is a count over schedules and worker interleavings; static analysis in reach cannot bound it. The "
-           "only shape-visible clause (a truncated body is never presented as complete) is already decided under C01/C10.",
-    "C19": "Cross-process schedules over shared memory; byte identity across workers is a run-time relation. The shape-visible core (the lock/slice protocol of the shared "
-           "index) is claimed under C54/C55/C53; the remainder needs execution or model checking, which is another technique family.",
 }
